@@ -68,6 +68,27 @@ Theorem C55_prop_of_model : forall ps body bc resp,
 Proof. exact prop_C55_of_model. Qed.
 Print Assumptions C55_prop_of_model.
 
+(* CENTRAL THEOREM, all inputs (both operations: op 1 = FCGIClient.Do over a scripted connection, op 2 =
+   Transport.RoundTrip end to end with buildMetaValsAndMethod and readResponse): for every well-formed input
+   (wf_C55, executable: decodable; parameter sizes < 2^31; for op 2 the reply lies in the modelled sub-language of
+   readResponse and the decidable side condition meta_ok holds, i.e. each CGI meta-variable the specification
+   expects is among those the model computes - this inclusion is evaluated, not proved symbolically) outside the
+   finding class (kf_C55 = 0), the property predicate the harness evaluates holds of the model's output. *)
+Theorem C55_central : forall i, wf_C55 i = true -> kf_C55 i = 0 -> prop_C55 i (run_C55 i) = true.
+Proof. exact central_C55. Qed.
+Print Assumptions C55_central.
+
+(* the parameter names computed by buildMetaValsAndMethod + RoundTrip are pairwise distinct for every request *)
+Theorem C55_meta_names_distinct : forall q, distinct_keys (meta_pairs q) = true.
+Proof. exact meta_pairs_distinct. Qed.
+Print Assumptions C55_meta_names_distinct.
+
+(* corpus-style cases of both operations satisfy wf and kf = 0, and the op 2 case is inside the model *)
+Example C55_central_nonvacuous :
+  wf_C55 ex_op1 = true /\ kf_C55 ex_op1 = 0 /\ wf_C55 ex_op2 = true /\ kf_C55 ex_op2 = 0
+  /\ run_C55 ex_op2 <> VErr 7 /\ run_C55 ex_op2 <> VErr 0.
+Proof. exact central_examples_C55. Qed.
+
 (* Non-vacuity: two parameters (one with a 200-byte value: 4-byte length form), a body, a reply with END_REQUEST. *)
 Example C55_nonvacuous :
   let ps := [([72; 79; 83; 84], [97]); ([81], repeat 7 200)] in
